@@ -12,13 +12,20 @@ package main
 //@ func main [C20]
 //@   flag checks=-panic
 //@   check auth-first: !isnil(app) && authConfigured(cfg) ==> app.g_auth
+//@   at httpStart$ the-router-that-is-served-is-the-checked-one: arg0 == app
 //@   at BasicAuthMiddleware with-the-configured-credentials: arg0 == cfg.Setting.AUTH_SETTINGS.BASIC.Username && arg1 == cfg.Setting.AUTH_SETTINGS.BASIC.Password
 
 // Not verified: they install no middleware on the router (frame only).
 //@ func initPyro
 //@   modifies nothing
-//@ func httpStart
+// The listener serves the router it is given - the one main built, with the
+// credential check in front of every route - and nothing else: a nil handler would
+// serve http.DefaultServeMux, on which imported packages register handlers of their
+// own (/debug/vars, /debug/requests, /debug/events) that never pass the middleware.
+//@ func httpStart [C20]
+//@   flag checks=-panic,-assert
 //@   modifies nothing
+//@   at http.Serve$ the-listener-serves-the-router-and-nothing-else: typeis(arg1, "*mux.Router") && unbox(arg1, "*mux.Router") == server
 
 // Environment overrides of the configuration: a credential that is configured
 // (in the file or through either variable) is never blanked by the overrides -
